@@ -10,6 +10,7 @@ A model program is a JSON list of construction statements (the actions of spec/M
   {"op": "AddVariable", "sector": "CA.HH", "name": "X", "desc": "..", "eqn": "2*{CA.HH:F}"}
         {S:V} in any text is replaced by S.GetVariableName(V) *at that point of the program*
   {"op": "SetRHS", "sector": .., "name": .., "eqn": ..}
+  {"op": "AddTerm", "sector": .., "name": .., "term": "{A:x}*{B:y}"}   Sector.AddTermToEquation (a non-blob term)
   {"op": "SetAttr", "sector": .., "attr": "AlphaIncome", "value": 0.6}
   {"op": "AddSupplier", "market": "CA.GOOD", "supplier": "US.BUS", "eqn": "MU*{CA.HH:INC}"}   eqn "" = residual
   {"op": "AddMarket", "sector": "US.BUS", "market": "CA.GOOD"}  (multi-output business)
@@ -121,6 +122,8 @@ def execute(program, solve=True, oracle=True, horizon=None, stop_before_main=Fal
                 b.sectors[st['country'] + '.' + st['code']] = obj
             elif op == 'AddVariable':
                 sec(st['sector']).AddVariable(st['name'], st.get('desc', ''), subst(st.get('eqn', ''), idx))
+            elif op == 'AddTerm':
+                sec(st['sector']).AddTermToEquation(st['name'], subst(st['term'], idx))
             elif op == 'SetRHS':
                 sec(st['sector']).SetEquationRightHandSide(st['name'], subst(st['eqn'], idx))
             elif op == 'SetAttr':
